@@ -164,7 +164,10 @@ theorem ok_step_e5 {s : Shared} {t : Tid} {l : Loc} {ch : Choice} {s' l' evs} (h
 
 theorem ok_step_e6 {s : Shared} {t : Tid} {l : Loc} {ch : Choice} {s' l' evs} (hpc : l.pc = .e6)
     (h : ok l (s.conn t).commit = true) (hs : tstep s t l ch = some (s', l', evs)) : ok l' (s'.conn t).commit = true := by
-  ok_tac
+  simp only [tstep, hpc] at hs
+  injection hs with hs; injection hs with h1 h2; injection h2 with h2 h3; subst h1 h2
+  simp only [ok, hpc] at h
+  cases hq : l.cur <;> simp_all [ok, bodyOk, gateIs, startBody]
 
 theorem ok_step_ec1 {s : Shared} {t : Tid} {l : Loc} {ch : Choice} {s' l' evs} (hpc : l.pc = .ec1)
     (h : ok l (s.conn t).commit = true) (hs : tstep s t l ch = some (s', l', evs)) : ok l' (s'.conn t).commit = true := by
